@@ -38,8 +38,8 @@ Section cands.
     | _ =>
         match class_of_tag reg (ntag n) with
         | Some kt => if ty_mem (TClass (c_name kt)) (fst own) then ([TClass (c_name kt)], rec_ok)
-                     else (fst own, RE [] [] (snd own))
-        | None => (fst own, RE [] [] (snd own))
+                     else (fst own, RE [nmark n] [] (snd own))
+        | None => (fst own, RE [nmark n] [] (snd own))
         end
     end.
 
@@ -71,8 +71,8 @@ Section cands.
            | _ =>
                match class_of_tag reg (ntag n) with
                | Some kt => if ty_mem (TClass (c_name kt)) found then Ok ([TClass (c_name kt)], rec_ok)
-                            else Ok (found, RE [] [] causes)
-               | None => Ok (found, RE [] [] causes)
+                            else Ok (found, RE [nmark n] [] causes)
+               | None => Ok (found, RE [nmark n] [] causes)
                end
            end
        end).
